@@ -63,6 +63,17 @@ class StackRun(object):
             env.hit("call-enter")
             if sub.get("nest") and self.fns.nest_hook:
                 self.fns.nest_hook(None, "callable")
+            if sub.get("cancel_sibling") is not None and n == 1:
+                # re-entrant use: the callable cancels another future of the same executor
+                # (with an inline base this happens on the library's own thread, inside its hand-over)
+                sib = self.futs.get(sub["cancel_sibling"])
+                if sib is not None:
+                    i_ = env.rec("op", "cancel", sub["cancel_sibling"])
+                    try:
+                        r_ = sib.cancel()
+                        env.rec("op-ret", "cancel", sub["cancel_sibling"], r_ if isinstance(r_, bool) else "nonbool", None, i_)
+                    except Exception as e_:
+                        env.rec("op-ret", "cancel", sub["cancel_sibling"], "raised", type(e_).__name__, i_)
             if sub.get("dur"):
                 sim.sleep(sub["dur"])
             o = script[min(n - 1, len(script) - 1)]
